@@ -14,7 +14,7 @@ def short(c):
     prev = None
     while prev != c:
         prev = c
-        c = re.sub(r'::<[^<>]*>', '', c)
+        c = re.sub(r'::<(?!impl )[^<>]*>', '', c)
     return c
 
 
